@@ -135,6 +135,13 @@ static inline int mpz_jacobi(mpz_srcptr a, mpz_srcptr b)
 static inline int mpz_probab_prime_p(mpz_srcptr a, int reps)
 { (void)reps; int r = UF(prime)(a->v); __CPROVER_assume(0 <= r && r <= 2);
   __CPROVER_assume(r != 0 ==> (a->v >= 2 || a->v <= -2)); return r; }
+_Bool UF(divisible)(long, long);
+static inline int mpz_divisible_p(mpz_srcptr n, mpz_srcptr d)
+{ /* facts of the integers linking divisibility and gcd, instantiated for this pair */
+  _Bool r = UF(divisible)(n->v, d->v);
+  __CPROVER_assume(r && (d->v > 1 || d->v < -1) ==> UF(gcd)(n->v, d->v) != 1 && UF(gcd)(d->v, n->v) != 1);
+  __CPROVER_assume(!r && UF(prime)(d->v) != 0 ==> UF(gcd)(n->v, d->v) == 1 && UF(gcd)(d->v, n->v) == 1);
+  return r ? 1 : 0; }
 static inline void mpz_fdiv_q(mpz_ptr r, mpz_srcptr a, mpz_srcptr b)
 { __CPROVER_assert(b->v != 0, "mpz_fdiv_q: divisor is not zero"); r->v = UF(fdiv_q)(a->v, b->v); }
 static inline void mpz_tdiv_q(mpz_ptr r, mpz_srcptr a, mpz_srcptr b)
